@@ -264,7 +264,7 @@ def custom_fields(n, tier):
             continue
         fam = {'e': 'CUSTEX', 'o': 'CUSTOPT', 'c': 'CUSTNEST'}[kind]
         for lo in sorted({0, 1, n - w} & set(range(0, n - w + 1))):
-            out.append(Field([(lo, w)], family=fam, **mk(kind, w)))
+            out.append(Field([(lo, w)], family=fam, qualified=(lo == 1), form=('list1' if lo == 1 and w % 2 else 'auto'), **mk(kind, w)))
         # arrays
         for stride in (w, w + 1):
             kmax = (n - w) // stride + 1
